@@ -1206,10 +1206,14 @@ pub fn replay_validate(case: &Value, rep: &mut Report, rng: &mut Rng) {
         "objective": {"kind": "mae"}}));
     // every generic network under every objective family in turn (the network's objective decides what `validate` reports)
     const OBJECTIVES: [&str; 7] = ["ae", "mae", "mse", "rmse", "ce", "bce", "kl"];
-    let mut arch = archs[(n + len + usize_of(ds, "seed")) % archs.len()].clone();
+    // three of the generic networks per case, rotating through all of them over the cases
+    let pick0 = n * 7 + len * 3 + usize_of(ds, "seed") * 5 + ds["tol2"].as_u64().unwrap() as usize;
+    for k in 0..3 {
+    let which = (pick0 + k * 5) % archs.len();
+    let mut arch = archs[which].clone();
     let last_is_softmax = arch["layers"].as_array().unwrap().last().unwrap()["act"] == "softmax";
     if !last_is_softmax {
-        arch["objective"] = json!({"kind": OBJECTIVES[(n * 3 + len * 5 + usize_of(ds, "seed") + ds["tol2"].as_u64().unwrap() as usize) % OBJECTIVES.len()]});
+        arch["objective"] = json!({"kind": OBJECTIVES[(pick0 + which + k) % OBJECTIVES.len()]});
     }
     let arch = &arch;
     let mut g = nets::build(arch);
@@ -1241,6 +1245,8 @@ pub fn replay_validate(case: &Value, rep: &mut Report, rng: &mut Rng) {
                 rep.mismatch("C12", "predict_is_not_last_activation_of_forward", &id, json!({"arch": arch["name"]}), case);
             }
         }
+    }
+    rep.count(&format!("generic_arch:{}", arch["name"].as_str().unwrap_or("?")), 1);
     }
 }
 
